@@ -191,7 +191,17 @@ impl<T: TrustProvider> TrustAwarePeerSelector<T> {
             .collect();
 
         // Sort by score descending (higher is better)
-        scored.sort_by(|a, b| b.1.total_cmp(&a.1));
+        // Highest score first. The score only sees the top 16 bytes of the XOR distance (and
+        // only at f64 resolution), so peers whose ids differ in lower-order bytes can tie:
+        // break ties on the exact 256-bit XOR distance so a farther peer never outranks a
+        // closer one of equal trust.
+        scored.sort_by(|a, b| {
+            b.1.total_cmp(&a.1).then_with(|| {
+                let da = key.distance(&DhtKey::from_bytes(*a.0.id.as_bytes()));
+                let db = key.distance(&DhtKey::from_bytes(*b.0.id.as_bytes()));
+                da.cmp(&db)
+            })
+        });
 
         // Take top `count` peers
         scored
